@@ -165,6 +165,7 @@ Definition w_kernel_step (c : wcfg) (p : P) (j : J) : P * J :=
 (* reb_integrator_whfast_part2 *)
 Definition w_part2 (c : wcfg) (s : wst) : wst :=
   if negb (alloc s) then s else            (* p_j == NULL *)
+  if negb (w_init_ok c) then s else        (* reb_integrator_whfast_init refuses the step (again): nothing is touched *)
   let '(p, j) := w_kernel_step c (part s) (pjh s) in
   let s := {| part := p; pjh := j; is_sync := false; recalc := recalc s; alloc := alloc s |} in
   let s := if w_safe c then w_sync c s else s in
